@@ -395,6 +395,7 @@ tzm_add_mn(const char *mn, size_t mz, znoff_t off)
 
 
 static unsigned int exst_only_p;
+static unsigned int zn_overflow_p;
 static const char *check_fn;
 
 static bool
@@ -450,7 +451,11 @@ parse_line(char *ln, size_t lz)
 Warning: zone `%.*s' skipped: not present in global zone database",
 		      (int)(ln + lz - lp), lp);
 		return NUL_ZNOFF;
-	} else if ((znp = tzm_find_zn(lp, ln + lz - lp)) == -1U) {
+	} else if ((znp = tzm_find_zn(lp, ln + lz - lp)) > 0xffffU) {
+		/* records hold the zone name's offset in 16 bits */
+		zn_overflow_p = 1U;
+		return NUL_ZNOFF;
+	} else if (znp == -1U) {
 		/* brilliant, can't add anything */
 		return NUL_ZNOFF;
 	}
@@ -669,6 +674,11 @@ cmd_cc(const struct yuck_cmd_cc_s argi[static 1U])
 
 	if (parse_file(argi->args[0U]) < 0) {
 		error("cannot read file `%s'", *argi->args ?: "stdin");
+		rc = 1;
+		goto out;
+	} else if (zn_overflow_p) {
+		error("\
+Error: zone names exceed 64 KiB, the tzmap format cannot address them");
 		rc = 1;
 		goto out;
 	} else if ((outf = argi->output_arg ?: "tzcc.tzm", false)) {
